@@ -21,12 +21,12 @@ func init() {
 		x := math.Float64frombits(bits)
 		t := math.Trunc(x)
 		out := map[string]any{
-			"ne":    x != t,
-			"lt0":   x < 0,
-			"lt1":   x < 1,
-			"ge1":   x >= 1,
-			"ge":    x >= 18446744073709551616,
-			"ge63":  x >= 9223372036854775808,
+			"ne":   x != t,
+			"lt0":  x < 0,
+			"lt1":  x < 1,
+			"ge1":  x >= 1,
+			"ge":   x >= 18446744073709551616,
+			"ge63": x >= 9223372036854775808,
 		}
 		/* which NaN comes out of an operation on a NaN is the hardware's business */
 		if x == x {
